@@ -755,6 +755,23 @@ def reshape_conditionals(fn, r, stats, key):
                     changed[0] += 1
                     i += 1
                     continue
+            if isinstance(s, (ast.Assign, ast.Return, ast.Expr, ast.AugAssign)) and surplus(s):
+                # `a if not c else b` == `b if c else a`, anywhere inside a simple statement
+                from .au import negate
+                done = False
+                for k, e in enumerate([n for n in ast.walk(s) if isinstance(n, ast.IfExp)]):
+                    t = copy.deepcopy(s)
+                    e2 = [n for n in ast.walk(t) if isinstance(n, ast.IfExp)][k]
+                    e2.test, e2.body, e2.orelse = ast.fix_missing_locations(ast.copy_location(negate(e2.test), e2.test)), e2.orelse, e2.body
+                    if wanted(t):
+                        swap([s], [t])
+                        out.append(t)
+                        changed[0] += 1
+                        done = True
+                        break
+                if done:
+                    i += 1
+                    continue
             out.append(s)
             i += 1
         return out
@@ -824,6 +841,15 @@ def _loop_as_comprehension(init, loop):
             cur = body[0]
             continue
         break
+    if len(body) == 2 and isinstance(body[0], ast.If) and not body[0].orelse and len(body[0].body) == 1 and isinstance(body[0].body[0], ast.Assign) \
+            and len(body[0].body[0].targets) == 1 and isinstance(body[0].body[0].targets[0], ast.Name) and isinstance(body[1], ast.Expr) and isinstance(body[1].value, ast.Call) \
+            and isinstance(body[1].value.func, ast.Attribute) and body[1].value.func.attr == 'append' and len(body[1].value.args) == 1 \
+            and isinstance(body[1].value.args[0], ast.Name) and body[1].value.args[0].id == body[0].body[0].targets[0].id:
+        # for t in it: [if c: t = A]; X.append(t)   ==   X.append(A if c else t)
+        v_ = body[0].body[0].targets[0].id
+        app = copy.deepcopy(body[1])
+        app.value.args[0] = ast.copy_location(ast.IfExp(test=body[0].test, body=body[0].body[0].value, orelse=ast.Name(id=v_, ctx=ast.Load())), body[0])
+        body = [app]
     if len(body) != 1:
         return None
     s = body[0]
